@@ -230,22 +230,30 @@ def audit_property_file(spec):
 
 
 # ---------------------------------------------------------------- harness
+def harness_pkgs():
+    return sorted(d for d in os.listdir(HARNESS) if d.startswith("g_") and os.path.exists(os.path.join(HARNESS, d, "Cargo.toml")))
+
+
 def build_harness(spec=None, profile="dev", timeout=2400):
-    """Build the group's harness binary (or the whole workspace when spec is None) against /repo."""
+    """Build the group's harness binary (every group when spec is None) against /repo's working tree.
+    Each group crate is its own cargo workspace (shared target dir), so groups cannot break each other."""
     env = {"CARGO_TARGET_DIR": TARGET, "RUSTFLAGS": "--cfg " + GUARD}
-    lock_src = os.path.join(REPO, "Cargo.lock")
+    pkgs = [spec["harness_pkg"]] if spec is not None else harness_pkgs()
+    rc_all, out_all = 0, ""
     with Lock("cargo"):
-        dst = os.path.join(HARNESS, "Cargo.lock")
-        if not os.path.exists(dst):
-            shutil.copy(lock_src, dst)
-        cmd = ["cargo", "build", "--offline", "--quiet"]
-        if spec is not None:
-            cmd += ["-p", spec["harness_pkg"]]
-        if profile == "release":
-            cmd.append("--release")
-        rc, out = run(cmd, cwd=HARNESS, timeout=timeout, env=env)
+        for pkg in pkgs:
+            d = os.path.join(HARNESS, pkg)
+            dst = os.path.join(d, "Cargo.lock")
+            if not os.path.exists(dst):
+                shutil.copy(os.path.join(REPO, "Cargo.lock"), dst)
+            cmd = ["cargo", "build", "--offline", "--quiet"]
+            if profile == "release":
+                cmd.append("--release")
+            rc, out = run(cmd, cwd=d, timeout=timeout, env=env)
+            rc_all |= rc
+            out_all += out
     binp = os.path.join(TARGET, "release" if profile == "release" else "debug", spec["harness_bin"]) if spec else None
-    return rc == 0, out, binp
+    return rc_all == 0, out_all, binp
 
 
 def build_repo_bins(bins, timeout=2400):
